@@ -242,7 +242,10 @@ func (actScen) Exec(w *World, cc any, prop string) *Result {
 				res.violate("C19", "writes-only-where-the-action-may", sig, "act%d %v (cwd %q, spokfile in use %q of kind %s) %s %q; allowed: %v and %s/**", ai, a.Args, cwdRel, useDir, useKind, what, p, sortedKeys(allowed), cacheDir)
 				return res
 			}
-			if isInit {
+			if isInit && len(flagsOnly(a.Args)) > 1 {
+				res.count("accept_either:init_combined_with_other_flags")
+			}
+			if isInit && len(flagsOnly(a.Args)) == 1 {
 				if existsHere {
 					res.count("probe:init_with_existing_spokfile")
 					if !obs.Failed {
